@@ -13,7 +13,10 @@ pub const ID_BASE: u32 = 0x1000;
 
 macro_rules! sized_custom {
     ($name:ident, $n:expr, $idx:expr) => {
-        #[repr(C, align(8))]
+        sized_custom!($name, $n, $idx, 8);
+    };
+    ($name:ident, $n:expr, $idx:expr, $al:literal) => {
+        #[repr(C, align($al))]
         pub struct $name {
             header: TagHeader,
             words: [u32; $n],
@@ -77,6 +80,9 @@ sized_custom!(S3, 3, 3);
 sized_custom!(S4, 4, 4);
 sized_custom!(S5, 5, 5);
 sized_custom!(S6, 6, 6);
+// stricter alignment than the tags' own: only ever looked for at 16-aligned addresses
+sized_custom!(A16w2, 2, 114, 16);
+sized_custom!(A16w6, 6, 118, 16);
 
 type E3 = [u8; 3];
 type E24 = [u64; 3];
@@ -112,7 +118,12 @@ pub fn dispatch(ctx: &mut Ctx, op: &str, call: &Value) -> Option<Value> {
             }
         };
     }
+    if out::arg_str(call, "t").starts_with("a16") && ctx.base as usize % 16 != 0 {
+        eprintln!("16-aligned custom type on an image that is not 16-aligned (tool error)");
+        std::process::exit(3);
+    }
     Some(match out::arg_str(call, "t") {
+        "a16_2" => g!(A16w2), "a16_6" => g!(A16w6),
         "s0" => g!(S0), "s1" => g!(S1), "s2" => g!(S2), "s3" => g!(S3), "s4" => g!(S4), "s5" => g!(S5), "s6" => g!(S6),
         "d8_1" => g!(D8e1), "d8_2" => g!(D8e2), "d8_3" => g!(D8e3), "d8_4" => g!(D8e4), "d8_8" => g!(D8e8), "d8_24" => g!(D8e24),
         "d12_1" => g!(D12e1), "d12_2" => g!(D12e2), "d12_3" => g!(D12e3), "d12_4" => g!(D12e4), "d12_8" => g!(D12e8), "d12_24" => g!(D12e24),
